@@ -24,7 +24,8 @@ ASSUMPTIONS = ["process-lifetime state of menu = the class attribute Menu.field_
 
 FIELDSETS = [["temp"], ["temp", "density"], ["temp", "density", "Y(H2)"], ["Y(H2)", "Y(O2)", "temp", "Z", "Zvar"],
              ["Z", "Zvar", "a"], ["Zvar", "Z"], ["x_velocity", "y_velocity", "volFrac", "a"], ["a", "ab", "abc"],
-             ["a.c", "abc", "Y(N2)"], ["density", "Y(H2)", "Y(O2)", "Y(N2)"], ["I_R(H2)", "Y(H2)", "gradpx", "D_H2", "rhoh"]]
+             ["a.c", "abc", "Y(N2)"], ["density", "Y(H2)", "Y(O2)", "Y(N2)"], ["I_R(H2)", "Y(H2)", "gradpx", "D_H2", "rhoh"],
+             ["Y(CH2(S))", "Y(CH2)", "Y(C(S))", "temp"]]
 
 
 def bounds(tier):
@@ -270,6 +271,34 @@ def run_case(case, workdir):
                             probs.append("box data level %d box %d" % (lv, b))
             if probs:
                 rec.fail("marinate_unpickled_differs", {}, "; ".join(probs[:4]))
+            # history: the plotfile is rewritten IN PLACE (same names), then marinated again
+            import shutil
+            d3 = dict(desc, seed=desc.get("seed", 0) + 3, time=-7.5, payload="signed")
+            for root_, dirs_, files_ in os.walk(path):
+                pass
+            tmp = os.path.join(workdir, "rewrite")
+            from ..refmodel import write_plotfile
+            ref3 = write_plotfile(d3, tmp)
+            for root_, dirs_, files_ in os.walk(tmp):
+                for fn_ in files_:
+                    src = os.path.join(root_, fn_)
+                    dst = os.path.join(path, os.path.relpath(src, tmp))
+                    with open(src, "rb") as fi, open(dst, "wb") as fo:      # overwrite in place, no entry added or removed
+                        fo.write(fi.read())
+            with Captured(["marinate", path]) as c2:
+                with vpool.controlled():
+                    st4, val4 = call(marinate.main)
+            rec.exe([dh, "marinate_after_rewrite"], trans=2)
+            if st4 == "exc":
+                rec.fail("marinate_raised", {"history": "rewritten in place, marinated again"}, exc_text(val4))
+            else:
+                with open(path + ".pkl", "rb") as f:
+                    up2 = pickle.load(f)
+                with vpool.controlled():
+                    okd = all(bits_equal(up2[:][lv][b], ref3.data[lv][b]) for lv in range(ref3.nlevels) for b in range(len(ref3.boxes[lv])))
+                if not same_value(up2.time, -7.5) or not okd:
+                    rec.fail("marinate_stale", {"history": "plotfile rewritten in place, marinated again"},
+                             "the second pickle does not hold the rewritten plotfile (time %r)" % up2.time)
         except Exception as e:
             rec.fail("marinate_unpickle", {}, exc_text(e))
     rec.sample({"desc": desc, "second_plotfile_fields": desc2["fields"]})
